@@ -76,11 +76,37 @@ static int contains(const uint8_t *h, size_t hn, const uint8_t *n, size_t nn)
     return 0;
 }
 
+/* heap events of one traced call: wipes of (parts of) library blocks and frees, in order */
+#define MAXHEV 4096
+static struct { uint8_t type; uint32_t size, off, len; } hev[MAXHEV];
+static int nhev = 0, hev_on = 0;
+
+void __real_octet_string_set_to_zero(void *s, size_t len);
+void __wrap_octet_string_set_to_zero(void *s, size_t len)
+{
+    if (hev_on && nhev < MAXHEV) {
+        for (int i = nblk - 1; i >= 0; i--) {
+            uint8_t *b = blk[i].p;
+            if ((uint8_t *)s >= b && (uint8_t *)s < b + (blk[i].n ? blk[i].n : 1)) {
+                hev[nhev].type = 1; hev[nhev].size = (uint32_t)blk[i].n;
+                hev[nhev].off = (uint32_t)((uint8_t *)s - b); hev[nhev].len = (uint32_t)len;
+                nhev++;
+                break;
+            }
+        }
+    }
+    __real_octet_string_set_to_zero(s, len);
+}
+
 void __wrap_free(void *p)
 {
     if (p) {
         int i = find_blk(p);
         if (i >= 0) {
+            if (hev_on && nhev < MAXHEV) {
+                hev[nhev].type = 2; hev[nhev].size = (uint32_t)blk[i].n; hev[nhev].off = 0; hev[nhev].len = 0;
+                nhev++;
+            }
             /* a block the library obtained: scan for registered secrets */
             for (int s = 0; s < nsecret; s++) {
                 if (contains((const uint8_t *)p, blk[i].n, secret[s], secret_len[s])) {
@@ -460,6 +486,28 @@ int api_op(const char *name, int lineno)
         struct count_data d = { 0 };
         if (s) srtp_stream_list_for_each(s->stream_list, count_cb, &d);
         out_u(d.n); out_z(s && s->stream_template ? 1 : 0);
+        return 1;
+    }
+    if (!strcmp(name, "dealloc_trace") || !strcmp(name, "remove_trace")) {
+        int sid = (int)IA[0] % MAXSES;
+        srtp_err_status_t st = (srtp_err_status_t)-2;
+        nhev = 0;
+        if (ses[sid]) {
+            hev_on = 1;
+            if (name[0] == 'd') { st = srtp_dealloc(ses[sid]); ses[sid] = NULL; }
+            else st = srtp_stream_remove(ses[sid], (uint32_t)IA[1]);
+            hev_on = 0;
+        }
+        out_z(st);
+        uint8_t *buf = malloc((size_t)nhev * 13 + 1);
+        for (int i = 0; i < nhev; i++) {
+            uint8_t *q = buf + 13 * i;
+            q[0] = hev[i].type;
+            uint32_t v[3] = { hev[i].size, hev[i].off, hev[i].len };
+            for (int j = 0; j < 3; j++) { q[1 + 4 * j] = v[j] >> 24; q[2 + 4 * j] = v[j] >> 16; q[3 + 4 * j] = v[j] >> 8; q[4 + 4 * j] = v[j]; }
+        }
+        out_bytes(buf, (size_t)nhev * 13);
+        free(buf);
         return 1;
     }
     if (!strcmp(name, "mktag")) { /* sid which ssrc keyidx is_rtcp | msg : the tag a holder of the stream's keys computes */
